@@ -133,3 +133,37 @@ func VH_msgtx_decode_any() {
 	}
 	vReach("accept")
 }
+
+// C08(3a'): size calculators == bytes written at the lengths where a CompactSize prefix grows: witness stacks
+// with 252/253 items and items / scripts of 252/253 bytes.
+//verif:opts reach=end
+func VH_msgtx_size_at_varint_boundaries() {
+	counts := []int{1, 2, 252, 253}
+	lens := []int{0, 1, 252, 253}
+	tx := &MsgTx{Version: vNondetI32("version"), LockTime: vNondetU32("locktime")}
+	ti := &TxIn{Sequence: vNondetU32("seq")}
+	ti.SignatureScript = make([]byte, lens[vNondetLen("sslen", 3)])
+	nw := counts[vNondetLen("nwit", 3)]
+	wl := lens[vNondetLen("wlen", 3)]
+	for j := 0; j < nw; j++ {
+		l := wl
+		if j > 0 && nw > 2 {
+			l = j % 2 // large stacks: keep the other items tiny
+		}
+		ti.Witness = append(ti.Witness, make([]byte, l))
+	}
+	tx.TxIn = append(tx.TxIn, ti)
+	tx.TxOut = append(tx.TxOut, &TxOut{Value: vNondetI64("value"), PkScript: make([]byte, lens[vNondetLen("pklen", 3)])})
+	w := &vWriter{}
+	vAssert(tx.BtcEncode(w, ProtocolVersion, WitnessEncoding) == nil, "encode ok")
+	vAssert(len(w.b) == tx.SerializeSize(), "SerializeSize == bytes written")
+	vAssert(ti.Witness.SerializeSize() == len(w.b)-tx.SerializeSizeStripped()-2, "TxWitness.SerializeSize == witness bytes written")
+	w2 := &vWriter{}
+	vAssert(tx.BtcEncode(w2, ProtocolVersion, BaseEncoding) == nil, "encode ok (base)")
+	vAssert(len(w2.b) == tx.SerializeSizeStripped(), "SerializeSizeStripped == bytes written")
+	var got MsgTx
+	r := &vReader{b: w.b}
+	vAssert(got.BtcDecode(r, ProtocolVersion, WitnessEncoding) == nil && r.pos == len(w.b), "own encoding decodes completely")
+	vAssert(len(got.TxIn) == 1 && len(got.TxIn[0].Witness) == nw && len(got.TxIn[0].Witness[0]) == wl, "witness shape round trips")
+	vReach("end")
+}
